@@ -39,7 +39,7 @@ RULE = ('corpus (witness cases of F18 and F-C03-fuse) first; then random pipelin
         'apply|assign|filter|rebatch|aggregate(MeanAndVariance|Collect) over datasets of <= 24 rows (0..8 batches of 1..4 rows, or '
         '0..12 scalar rows with .batch(n)), three data-source kinds (SequenceDataSource, ShardedIterable, plain list); for every '
         'case: the sequential baseline, up to 5 other groupings of the same operator list into transforms (builder / same-name '
-        'chain = fuse / new-name chain = stage, including refused ones and the all-chained one), num_threads in {1,2,3,8}, shard '
+        'chain = fuse / new-name chain = stage, including refused ones and the all-chained one), num_threads in {1,2,3,8} on real OS threads and num_threads in {2,3} under the deterministic scheduler (seeded PCT / uniform-random schedules, deadlocks reported), shard '
         'counts 1..5 (via make(shard=) and via data_source.shard) + merge_states, and run_pipeline_interleaved in process (two '
         'groupings). non-trivial = at least 2 input elements, at least 2 items, and some strategy other than the baseline ran '
         'without error; distinct = distinct canonical case JSON')
@@ -147,6 +147,10 @@ def strategies_for(rng, items, src, quick=True):
       sts.append(dict(s='shards', cuts=bc, k=k, via='source' if (k + len(items)) % 2 else 'make'))
     if valid_alt:
       sts.append(dict(s='shards', cuts=rng.choice(valid_alt), k=rng.choice([2, 3]), via=rng.choice(['make', 'source'])))
+  # the same threads under the deterministic scheduler (seeded schedules, PCT and uniform random)
+  for j in range(2 if quick else 4):
+    sts.append(dict(s='sched', cuts=bc, n=rng.choice([2, 3]), chooser=['pct', 'random'][j % 2],
+                    seed=rng.randrange(10**6)))
   sts.append(dict(s='interleaved', cuts=bc))
   allc = ['c'] * g
   if allc != bc:
@@ -156,7 +160,7 @@ def strategies_for(rng, items, src, quick=True):
 
 def gen_random(ctx):
   rng = ctx.rng
-  for _ in range(220 if ctx.quick else 4000):
+  for _ in range(600 if ctx.quick else 8000):
     kind = rng.choice(['dict', 'dict', 'scalar'])
     items = gen_items(rng, kind)
     src = rng.choice(['seq', 'seq', 'rr', 'plain'])
@@ -201,7 +205,7 @@ def gen_cases(ctx):
 
 def extra(ctx):
   from harness.core import InfraError
-  need = {'strategy': ['seq', 'threads', 'shards:make', 'shards:source', 'interleaved'],
+  need = {'strategy': ['seq', 'threads', 'sched', 'shards:make', 'shards:source', 'interleaved'],
           'item': ['apply', 'assign', 'filter', 'rebatch', 'agg:moments', 'agg:collect'],
           'src': ['seq', 'rr', 'plain'], 'kind': ['dict', 'scalar'],
           'grouping': ['uses _chain_and_fuse', 'refused (function behind aggregation)'],
@@ -213,15 +217,32 @@ def extra(ctx):
 
 # ------------------------------------------------------------------ implementation side
 
+_HANGS = 0
+
+
 def run_impl(case):
+  """Every strategy in the child process, under a hard timeout.  A hang is an observation ({"hang": true}); once this
+  worker process has seen 3 hangs the verdict is settled, so further strategies that use OS threads are not waited
+  for again ({"skipped": true}) — a broken tree is reported in minutes, not suffered for hours."""
+  global _HANGS
   ch = L.child()
-  return [ch.run({k: case[k] for k in ('kind', 'data', 'items', 'src')}, st, TIMEOUT) for st in case['strategies']]
+  core = {k: case[k] for k in ('kind', 'data', 'items', 'src')}
+  out = []
+  for st in case['strategies']:
+    if _HANGS >= 3 and st['s'] in ('threads', 'interleaved'):
+      out.append(dict(skipped=True, err=None))
+      continue
+    o = ch.run(core, st, TIMEOUT if _HANGS == 0 else min(TIMEOUT, 5.0))
+    if o.get('hang'):
+      _HANGS += 1
+    out.append(o)
+  return out
 
 
 # ------------------------------------------------------------------ oracle (the property, on the real outputs)
 
 def tag(st):
-  extra_ = ''.join(f' {k}={st[k]}' for k in ('n', 'k', 'via') if k in st)
+  extra_ = ''.join(f' {k}={st[k]}' for k in ('n', 'k', 'via', 'chooser', 'seed') if k in st)
   return f"[{st['s']} cuts={''.join(st['cuts']) or '-'}{extra_}]"
 
 
@@ -245,6 +266,8 @@ def agg_equal(a, b, as_multiset):
 
 def strategy_failure(case, st, base, obs):
   """None, or how the strategy's observables differ from the sequential run's."""
+  if obs.get('skipped'):
+    return None
   if obs.get('hang'):
     return f"did not finish within {obs.get('timeout')} s (hang)"
   if base.get('err'):
@@ -265,7 +288,7 @@ def strategy_failure(case, st, base, obs):
     return f"aggregate keys differ: {sorted(obs['aggs'])} vs {sorted(base['aggs'])}"
   # an order-carrying accumulator: same list where the strategy keeps the order (fused/chained, stage runner,
   # contiguous shards merged in shard order), same multiset where it cannot (threads, round-robin shards)
-  as_ms = st['s'] == 'threads' or (st['s'] == 'shards' and case['src'] != 'seq')
+  as_ms = st['s'] in ('threads', 'sched') or (st['s'] == 'shards' and case['src'] != 'seq')
   for k in sorted(base['aggs']):
     if not agg_equal(obs['aggs'][k], base['aggs'][k], as_ms):
       return f"agg_result {k} differs: {obs['aggs'][k]} vs sequential {base['aggs'][k]}"
@@ -281,7 +304,7 @@ def strategy_failure(case, st, base, obs):
 def classify(case, st, why):
   """known input classes (predicates over the case/strategy, not over the property id)"""
   if why.startswith('batches differ') and has_rebatch(case) and (
-      (st['s'] == 'threads' and st['n'] > 0) or (st['s'] == 'shards' and st['k'] > 1)):
+      (st['s'] in ('threads', 'sched') and st['n'] > 0) or (st['s'] == 'shards' and st['k'] > 1)):
     return 'F18'
   if filter_first(case['items'], st['cuts']) and (
       'IndexError' in why or (st['s'] == 'interleaved' and re.search(r'stage \d+ failed', why))):
@@ -312,7 +335,7 @@ def oracle(case, obs):
   return f'{tag(st)} {why}'
 
 
-_TAG = re.compile(r'^\[(\w+) cuts=([bfc-]*)(?: n=(\d+))?(?: k=(\d+))?(?: via=(\w+))?\] (.*)$', re.S)
+_TAG = re.compile(r'^\[(\w+) cuts=([bfc-]*)(?: n=(\d+))?(?: k=(\d+))?(?: via=(\w+))?(?: chooser=\w+)?(?: seed=\d+)?\] (.*)$', re.S)
 
 
 def finding(case, what):
@@ -329,7 +352,7 @@ def finding(case, what):
 
 def nontrivial(case, obs):
   return (len(case['data']) >= 2 and len(case['items']) >= 2 and
-          any(o.get('err') is None and not o.get('hang') for o in obs[1:]))
+          any(o.get('err') is None and not o.get('hang') and not o.get('skipped') for o in obs[1:]))
 
 
 # ------------------------------------------------------------------ model side
@@ -339,7 +362,7 @@ def model_requests(case):
   by_cuts = {}
   for st in case['strategies']:
     r = by_cuts.setdefault(tuple(st['cuts']), dict(shards=set(), rr=set()))
-    n = st.get('k') if st['s'] == 'shards' else (st.get('n') if st['s'] == 'threads' else None)
+    n = st.get('k') if st['s'] == 'shards' else (st.get('n') if st['s'] in ('threads', 'sched') else None)
     if n and case['src'] in ('seq', 'rr'):
       r['shards' if case['src'] == 'seq' else 'rr'].add(n)
   reqs = []
@@ -403,7 +426,7 @@ def model_obs(case, resps):
 
 def compare(impl_obs, mobs):
   for i, (o, m) in enumerate(zip(impl_obs, mobs)):
-    if o.get('hang') or (o.get('err') and o.get('phase') == 'run'):
+    if o.get('hang') or o.get('skipped') or (o.get('err') and o.get('phase') == 'run'):
       continue            # run-time failures are the oracle's business (error paths are not modelled here)
     if m.get('err') or o.get('err'):
       if m.get('err') != o.get('err'):
